@@ -5,6 +5,7 @@ static struct { const char *name; int (*fn)(FILE *, FILE *); } cmds[] = {
     {"writehist", cmd_writehist},
     {"compint", cmd_compint},
     {"hash", cmd_hash},
+    {"pin", cmd_pin},
     {"readenum", cmd_readenum},
     {NULL, NULL}
 };
